@@ -313,6 +313,9 @@ class TGen(bindgen.Gen):
 
     def value(self, a):
         if a["prim"] in ("float", "double") and self.rng.random() < 0.2:
+            if self.rng.random() < 0.15:
+                # non-finite values (written inf/-inf/nan or, after the C02 repair, INF/-INF/NaN: both parse back)
+                return self.rng.choice([float("inf"), float("-inf"), float("nan")])
             if a["guard"][0] == "notNone" and self.rng.random() < 0.15:
                 return -0.0
             v = self.rng.choice(EXP_FLOATS)
